@@ -54,6 +54,8 @@ def kind_of_type(t):
     t = canon(t)
     if t == "bool":
         return "bool"
+    if t == "char":
+        return "str"       # a C char is carried as a one-character string (character arithmetic is not translated)
     if t in SIGNED or t in UNSIGNED:
         return "int"
     if t in FLOATS:
